@@ -12,7 +12,8 @@ ASSUMPTIONS = ["the CLI reseeds the random generator from the clock by design: p
                "debug 1 makes the library print to stdout; only the returned bytes and log are compared"]
 TRUSTED = ["process-level isolation of the oracle workers (each run_oracle call starts new processes)"]
 
-SRC_FIXED = ["c d e", "v.Random(20) q.Random(10) c d e f g a b", "RandomSeed(5) t.Random(10) c d e f", "PRINT(Random(100)) PRINT(Random(100))", "INT A=1 PRINT(A) ZZZ ! c",
+SRC_FIXED = ["c d e", "v.Random(20) q.Random(10) c d e f g a b", "RandomSeed(5) t.Random(10) c d e f", "RandomSeed(0) v.Random(30) t.Random(9) c d e f g", "RANDOM_SEED=0 q.Random(20) l8 cdefgab", "RandomSeed(4294967296) PRINT(Random(100)) v.Random(40) c d e",
+             "RandomSeed(0) PRINT(Random(1000)) PRINT(RandomSelect(1,2,3,4,5)) o.Random(2) c d e", "PRINT(Random(100)) PRINT(Random(100))", "INT A=1 PRINT(A) ZZZ ! c",
              "TR(3) c TR(1) d", "FUNCTION F(A){RETURN(A*2)} PRINT(F(4))", "#A={c d} #A #A", "ドレミ", "KeyFlag+(fc) c d e f", "PRINT(RandomSelect(1,2,3,4,5))",
              # all-ASCII sources that use the sutoton preprocessor (user word definitions): every entry point must run the same preprocessing
              "~{Riff}={l8 cdef} o5 Riff g Riff", "~{xy}={r} c xy d", "~{Up}={>} c Up c /* ascii only */", "~{q}={v127} cq",
@@ -29,7 +30,7 @@ def streams(tier, rng, P, only=None, cases=None):
         for i in range(n):
             k = rng.random()
             if k < 0.5: srcs.append(mml.pr(mml.gen_program(rng, depth=2, maxlen=8)))
-            elif k < 0.7: srcs.append(rng.choice(["v.Random(%d) " % rng.randint(1, 30), "t.Random(%d) " % rng.randint(1, 9), "o.Random(2) ", "RandomSeed(%d) q.Random(9) " % rng.randint(1, 999)]) + mml.pr(mml.gen_program(rng, depth=1, maxlen=6)))
+            elif k < 0.7: srcs.append(rng.choice(["v.Random(%d) " % rng.randint(1, 30), "t.Random(%d) " % rng.randint(1, 9), "o.Random(2) ", "RandomSeed(%d) q.Random(9) " % rng.choice([0, 0, 1, 4294967296, rng.randint(1, 999)]), "RandomSeed(0) v.Random(25) "]) + mml.pr(mml.gen_program(rng, depth=1, maxlen=6)))
             elif k < 0.74: srcs.append("%s[%d PRINT(%s)] %s c d e f g" % (rng.choice(["", "RandomSeed(%d) " % rng.randint(1, 99)]), rng.choice([98, 100, 101, 130, 250]), rng.choice(["Random(50)", "Random(3)+1", "RandomSelect(1,2,3)"]), rng.choice(["v.Random(%d)" % rng.randint(5, 40), "t.Random(7)", "q.Random(30)", "o.Random(2)"])))
             elif k < 0.85: srcs.append(rng.choice(["INT A=%d; FOR(INT I=0;I<3;I++){ PRINT(A+I) c }", "STR S={c d} S S PRINT({x%d})", "INT N=%d IF(N>5){ c }ELSE{ d } PRINT(N)"]) % rng.randint(0, 9))
             else: srcs.append(mml.pr(mml.gen_program(rng, depth=1, maxlen=5)) + rng.choice([" !", " ZZZ", " (", " }", " あ"]))
